@@ -307,7 +307,11 @@ package server
 //@   trusted queue internals (wait queue), subject of C20
 //@   modifies LockManagerWaitQueue.*, E_Pserver_Lock
 
+// C01/C17: a key parked for delayed removal is kept alive by one reference of its own, which the delayed pass gives
+// back: without it the pass would release a key that was taken again in the meantime (a second manager for the key)
 //@ func (*LockDB).addWaitRemoveLockManager
+//@   requires self != nil && lockManager != nil
+//@   ensures C01.park.reference,C17.park.reference: lockManager.refCount == ite(isnil(err), u32(old(lockManager.refCount) + 1), old(lockManager.refCount))
 //@   modifies LockManagerQueue.*, LockManager.refCount, E_LJPserver_LockManager, E_Pserver_LockManager, E_int32
 
 //@ func (*LockDB).PushExecutorLockCommand
